@@ -998,29 +998,30 @@ func cmdRun(args []string) int {
 		total.Samples = []any{"no sample collected"}
 	}
 	cov := map[string]any{
-		"evaluations":              total.Evals,
-		"simulated_runs":           total.Runs,
-		"distinct_nontrivial":      len(distinct),
-		"distinct_nontrivial_note": fmt.Sprintf("exact count over %d recorded non-trivial cases; %d further non-trivial cases were not recorded (per-worker cap), so this is a lower bound when that number is > 0", len(total.Hashes), total.HashesDropped),
-		"rule":                     meta.Rule,
-		"samples":                  total.Samples,
-		"engine_operations":        total.Execs,
-		"runs_per_hour":            int(float64(total.Runs) / wall * 3600),
-		"seeds":                    map[string]any{"base": baseSeed, "derivation": "splitmix64(base, property, run index)", "run_indices": total.Runs},
-		"logical_steps":            total.Steps,
-		"simulated_time":           "none: pongo2 has no clock-dependent behaviour; logical_steps (scheduler decisions + seam events) is the only time there is",
-		"faults_fired":             total.Faults,
-		"distinct_interleavings":   len(distinct),
-		"distinct_workloads":       len(progs),
-		"probes":                   total.Probes,
-		"probes_at_zero":           zeroProbes,
-		"race_runs":                total.RaceRuns,
-		"race_reports":             total.RaceReports,
-		"porcupine":                map[string]int{"ok": total.Porcupine[0], "illegal": total.Porcupine[1], "unknown": total.Porcupine[2]},
-		"discarded":                total.Discarded,
-		"components":               map[string]any{"real": meta.Real, "stub": meta.Stub},
-		"known_findings_observed":  len(knownHit),
-		"workers":                  workers,
+		"evaluations":                           total.Evals,
+		"simulated_runs":                        total.Runs,
+		"distinct_nontrivial":                   len(distinct),
+		"distinct_nontrivial_note":              fmt.Sprintf("exact count over %d recorded non-trivial cases; %d further non-trivial cases were not recorded (per-worker cap), so this is a lower bound when that number is > 0", len(total.Hashes), total.HashesDropped),
+		"rule":                                  meta.Rule,
+		"samples":                               total.Samples,
+		"engine_operations":                     total.Execs,
+		"runs_per_hour":                         int(float64(total.Runs) / wall * 3600),
+		"seeds":                                 map[string]any{"base": baseSeed, "derivation": "splitmix64(base, property, run index)", "run_indices": total.Runs},
+		"logical_steps":                         total.Steps,
+		"simulated_time":                        "none: pongo2 has no clock-dependent behaviour; logical_steps (scheduler decisions + seam events) is the only time there is",
+		"faults_fired":                          total.Faults,
+		"distinct_interleavings":                len(distinct),
+		"distinct_workloads":                    len(progs),
+		"probes":                                total.Probes,
+		"probes_at_zero":                        zeroProbes,
+		"race_runs":                             total.RaceRuns,
+		"race_reports":                          total.RaceReports,
+		"porcupine":                             map[string]int{"ok": total.Porcupine[0], "illegal": total.Porcupine[1], "unknown": total.Porcupine[2]},
+		"discarded":                             total.Discarded,
+		"components":                            map[string]any{"real": meta.Real, "stub": meta.Stub},
+		"known_findings_observed":               len(knownHit),
+		"order_independence_runs_cross_checked": orderChecked,
+		"workers":                               workers,
 	}
 	ev := map[string]any{
 		"property_id": *prop,
